@@ -82,14 +82,20 @@ ACC = {
 }
 
 # abs:ScenarioOutline.scenarios: see contracts/c10_location.py
-contract(M + "ScenarioOutline.run", props=P, params={"self": "ref:ScenarioOutline", "runner": "ref:ModelRunner"},
+contract(M + "ScenarioOutline.run", props=P + ["C03"], params={"self": "ref:ScenarioOutline", "runner": "ref:ModelRunner"},
          self_classes=["ScenarioOutline"], globals=SYS, result="bool",
          requires=RUN_REQUIRES, modifies=RUN_MODIFIES,
          loops=[Loop(modifies=RUN_MODIFIES, invariant=dict(ACC, **{
              "scope": "G_ctx_depth == old(G_ctx_depth) and G_ctx_scenario == old(G_ctx_scenario) and G_ctx_rule == old(G_ctx_rule) and "
                       "forall(lambda k: implies(k < old(G_ctx_depth), G_ctx_saved_scenario(k) == old(G_ctx_saved_scenario(k)) and G_ctx_saved_rule(k) == old(G_ctx_saved_rule(k))))",
              "hook-flags": "forall(lambda r: implies(field_of(r, 'hook_failed', 'Step') and not old(field_of(r, 'hook_failed', 'Step')), G_bad > old(G_bad)))"}))],
-         ensures=RUN_ENSURES)
+         ensures=dict(RUN_ENSURES, **{
+             "status-cache-is-empty-after-the-rows-ran":
+                 "self._cached_status == Status.untested",
+         }),
+         doc="C03: the row runs may leave any value in the outline's status cache (a hook that reads outline.status between two "
+             "rows caches a status computed from rows that have not run yet); the cache must be empty again when run() returns, "
+             "so that the status reported afterwards is compute_status() of the final row statuses")
 
 # -- Feature / Rule --------------------------------------------------------------------------------
 contract(M + "ScenarioContainer.should_run", inline=True)
@@ -108,7 +114,7 @@ contract("abs:RunItem.mark_skipped", trusted=True, params={"self": "ref:RunItem"
          doc="marks the item and everything in it skipped (C10); no hook, no step function, no bad event")
 
 CONT_LOOPMOD = RUN_MODIFIES
-contract(M + "ScenarioContainer.run", props=P, params={"self": "ref:ScenarioContainer", "runner": "ref:ModelRunner"},
+contract(M + "ScenarioContainer.run", props=P + ["C03"], params={"self": "ref:ScenarioContainer", "runner": "ref:ModelRunner"},
          self_classes=["Feature", "Rule"], globals=SYS, result="bool",
          requires=dict(RUN_REQUIRES, **{"no-scenario-scope-open": "G_ctx_scenario is ABSENT"}),
          modifies=RUN_MODIFIES,
@@ -147,6 +153,8 @@ contract(M + "ScenarioContainer.run", props=P, params={"self": "ref:ScenarioCont
          ensures=dict(RUN_ENSURES, **{
              "raising-cleanup-fails-the-element":
                  "implies(pop_raises(G_npops - 1), result == True and self._cached_status == Status.error)",
+             "status-cache-holds-nothing-computed-while-the-items-ran":
+                 "self._cached_status in (Status.untested, Status.skipped, Status.hook_error, Status.error)",
          }))
 
 # -- ModelRunner.run_model: the verdict (C01 top level) --------------------------------------------------
